@@ -187,7 +187,7 @@ def run_container_impl(order, ops):
             res = [999, classify_exception(exc)]
         fp = h.fp
         if not isinstance(fp, FastPolicy) or list(fp._cache_key_order) != list(order):
-            obs.append([res, ["NOT-A-FASTPOLICY", type(fp).__name__], 0])
+            obs.append([res, ["WRONG-CONTAINER", type(fp).__name__, list(getattr(fp, "_cache_key_order", []))], 0])
             break
         obs.append([res, sorted(mgmt.ATOMS.rules(list(fp))), len(fp)])
     return obs
@@ -446,6 +446,7 @@ def run_container(chk, n_random, exh_len, vm_pool):
         hs = list(exhaustive_container(order, exh_len))
         check_container_batch(chk, order, hs, f"container-exhaustive-{order}", vm_pool)
         chk.extra.setdefault("strata", {})[f"container_exhaustive_order{list(order)}_len<={exh_len}"] = len(hs)
+    chk.exhaustive = True            # the short-sequence scope above was covered completely
     per = max(1, n_random // len(C_ORDERS))
     for order in C_ORDERS:
         hs = []
@@ -661,9 +662,9 @@ def main():
     if chk.replay_file:
         return replay(chk)
     if chk.tier == "thorough":
-        run(chk, 1200, 16000, 3, 150, 20000, 1500)
+        run(chk, 4000, 160000, 3, 800, 60000, 2000)
     else:
-        run(chk, 120, 1600, 2, 25, 3000, 200)
+        run(chk, 200, 6400, 2, 60, 5000, 300)
         if chk.broken() and not chk.spec_failures:
             run(chk, 600, 8000, 3, 80, 3000, 0)
     chk.finish()
